@@ -25,18 +25,20 @@ where CL03<CS>: Scheme<PubKey = CL03PublicKey, PrivKey = CL03SecretKey>, CS::Has
     let widths: Vec<(&str, Integer)> = vec![("1", Integer::from(1)), ("2", Integer::from(2)), ("3", Integer::from(3)), ("4", Integer::from(4)), ("255", Integer::from(255)), ("2^64", pow2(64)), ("2^256-1", pow2(256) - 1u32)];
     let offsets: Vec<(&str, Integer)> = vec![("0", Integer::from(0)), ("1", Integer::from(1)), ("2^32", pow2(32))];
     #[derive(Clone)]
-    enum Kind { Complete, OutOfRange, Cheat, Transplant, Leaf(usize, usize), Statement, SignFlip }
+    enum Kind { Complete, OutOfRange, Cheat, Forge, BaseSign, Transplant, Leaf(usize, usize), Statement, SignFlip }
     struct Root { id: String, s: usize, wi: usize, oi: usize, kind: Kind }
     let mut roots = Vec::new();
     for s in 0..2 { for wi in 0..widths.len() { for oi in 0..offsets.len() {
         roots.push(Root { id: format!("{}/{}/w={}/a={}/complete", CS::NAME, settings[s].0, widths[wi].0, offsets[oi].0), s, wi, oi, kind: Kind::Complete });
         if oi == 1 { roots.push(Root { id: format!("{}/{}/w={}/a={}/out-of-range", CS::NAME, settings[s].0, widths[wi].0, offsets[oi].0), s, wi, oi, kind: Kind::OutOfRange }); }
         if oi == 2 && (s == 0 || env.thorough()) { roots.push(Root { id: format!("{}/{}/w={}/a={}/cheating-prover", CS::NAME, settings[s].0, widths[wi].0, offsets[oi].0), s, wi, oi, kind: Kind::Cheat }); }
+        if oi == 2 && (s == 1 || env.thorough()) && [0usize, 3, 5, 6].contains(&wi) { roots.push(Root { id: format!("{}/{}/w={}/a={}/adaptive-prover", CS::NAME, settings[s].0, widths[wi].0, offsets[oi].0), s, wi, oi, kind: Kind::Forge }); }
     } } }
     for s in 0..2 { for wi in [1usize, 4, 6] { roots.push(Root { id: format!("{}/{}/w={}/transplant", CS::NAME, settings[s].0, widths[wi].0), s, wi, oi: 1, kind: Kind::Transplant }); roots.push(Root { id: format!("{}/{}/w={}/statement", CS::NAME, settings[s].0, widths[wi].0), s, wi, oi: 1, kind: Kind::Statement }); } }
     for (s, wi) in [(0usize, 4usize), (1, 6)] { if s == 1 && !env.thorough() { continue; } let nch = 16; for ch in 0..nch { roots.push(Root { id: format!("{}/{}/w={}/leaf-edits/chunk{}", CS::NAME, settings[s].0, widths[wi].0, ch), s, wi, oi: 1, kind: Kind::Leaf(ch, nch) }); } }
     roots.push(Root { id: format!("{}/{}/w=255/sign-flip", CS::NAME, settings[0].0), s: 0, wi: 4, oi: 1, kind: Kind::SignFlip });
-    env.ctx.set_rule("completeness: 2 (bases, modulus) settings x 7 interval widths {1,2,3,4,255,2^64,2^256-1} x 3 offsets {0,1,2^32} x 5 points {a, a+1, mid, b-1, b} => verify = true; honest prover out of range: x in {a-1, b+1, a-2^64, b+2^64} => no accepted proof (a prover panic is a refusal); cheating prover (hook: square part of a negative rest := 0, rejection loops give up after 64 draws) for x in {a-1, a-2, a-2^16, a-2^31, b+1, b+2, b+2^16, b+2^64} over all 7 widths at a = 2^32 => no accepted proof; transplants: per honest proof, 5 target commitments {commit(a-1), commit(b+1), commit(a-2^64), commit(-5), random group element} x ALL 16 keep/recompute patterns over {E_a_1, E_a_2, E_b_1, E_b_2} with E, E_prime re-targeted => rejected; statement edits: honest first, then shifted intervals of the same width (and an honest proof for the shifted interval must verify right after), bounds a+-1, b+-1, other bases, other modulus => rejected; transplants also re-target the honest commitment to the bounds [a+1, b] and [a, b-1] with all 16 patterns; leaf edits: every integer leaf +1/-1/zero/+N/sibling swap => rejected; sign flips: every group-element leaf v := N - v, searched over a pool of 32 honest proofs (acceptance depends on exponent parities) => rejected. State = (setting, interval, point / attack); non-trivial = the real verifier ran.");
+    roots.push(Root { id: format!("{}/{}/w=255/base-sign", CS::NAME, settings[0].0), s: 0, wi: 4, oi: 1, kind: Kind::BaseSign });
+    env.ctx.set_rule("completeness: 2 (bases, modulus) settings x 7 interval widths {1,2,3,4,255,2^64,2^256-1} x 3 offsets {0,1,2^32} x 5 points {a, a+1, mid, b-1, b} => verify = true; honest prover out of range: x in {a-1, b+1, a-2^64, b+2^64} => no accepted proof (a prover panic is a refusal); adaptive cheating prover (harness-side prover that draws omega of each larger-interval proof first and picks the square / rest split after seeing the challenge; tried against both challenge formats) for x in {a-1, b+1, a-2^31, b+2^64} at 4 widths => no accepted proof; bases n - g / n - h against a pool of 64 honest proofs => rejected; cheating prover (hook: square part of a negative rest := 0, rejection loops give up after 64 draws) for x in {a-1, a-2, a-2^16, a-2^31, b+1, b+2, b+2^16, b+2^64} over all 7 widths at a = 2^32 => no accepted proof; transplants: per honest proof, 5 target commitments {commit(a-1), commit(b+1), commit(a-2^64), commit(-5), random group element} x ALL 16 keep/recompute patterns over {E_a_1, E_a_2, E_b_1, E_b_2} with E, E_prime re-targeted => rejected; statement edits: honest first, then shifted intervals of the same width (and an honest proof for the shifted interval must verify right after), bounds a+-1, b+-1, other bases, other modulus => rejected; transplants also re-target the honest commitment to the bounds [a+1, b] and [a, b-1] with all 16 patterns; leaf edits: every integer leaf +1/-1/zero/+N/sibling swap => rejected; sign flips: every group-element leaf v := N - v, searched over a pool of 32 honest proofs (acceptance depends on exponent parities) => rejected. State = (setting, interval, point / attack); non-trivial = the real verifier ran.");
     par_for(&roots, |_, r| {
         if !env.want(&r.id) || env.ctx.out_of_time() { return; }
         let (sn, g, h, n) = (&settings[r.s].0, &settings[r.s].1, &settings[r.s].2, &settings[r.s].3);
@@ -166,6 +168,35 @@ where CL03<CS>: Scheme<PubKey = CL03PublicKey, PrivKey = CL03SecretKey>, CS::Has
                 if which == "x=a" { env.ctx.sample(json!({"root": r.id, "targets": targets.iter().map(|t| t.0.clone()).collect::<Vec<_>>(), "patterns": 16})); }
                 }
             }
+            Kind::BaseSign => {
+                // "proofs checked against other bases are rejected": the bases n - g, n - h differ from g, h only in sign, which an
+                // even exponent loses; whether an honest proof passes depends on the parity of its responses, so a pool is searched
+                let k = if env.thorough() { 128 } else { 64 };
+                let pool: Vec<RP> = (0..k).filter_map(|i| { let c = commit(&mid, &rnd(&format!("bs{}", i)), g, h, n); prove(&mid, &c, &a, &b).ok() }).collect();
+                if pool.is_empty() { env.machinery("base-sign pool empty"); return; }
+                for (nm, g2, h2) in [("g := n - g", (n - g).complete(), h.clone()), ("h := n - h", g.clone(), (n - h).complete()), ("g := n - g, h := n - h", (n - g).complete(), (n - h).complete())] {
+                    env.ctx.state(&[r.id.as_bytes(), nm.as_bytes()]);
+                    let mut hit = None;
+                    for (i, p) in pool.iter().enumerate() { env.ctx.step(); if accepted(&verify(p, &g2, &h2, n, &a, &b)) { hit = Some(i); break; } }
+                    if let Some(i) = hit { env.ctx.violation("C16:statement:base-sign:accepted", &format!("an honest proof (#{} of a pool of {}) verifies against the bases with [{}]", i, pool.len(), nm), env.case(&r.id, json!({"base": det0, "bases": nm, "pool": pool.len()}))); }
+                    env.ctx.class(if hit.is_some() { "base-sign:accepted" } else { "base-sign:rejected" }); env.ctx.trace();
+                }
+            }
+            Kind::Forge => {
+                // a prover that knows an opening of E to a value outside [a, b], draws the first message of each larger-interval
+                // proof BEFORE fixing the decomposition, and chooses the square / rest split once it knows the challenge
+                for (pn, x) in [("a-1", a.clone() - 1u32), ("b+1", b.clone() + 1u32), ("a-2^31", a.clone() - pow2(31)), ("b+2^64", b.clone() + pow2(64))] {
+                    for fmt in ["H(omega)", "H(omega, E_x_2, statement)"] {
+                        if !env.ctx.state(&[r.id.as_bytes(), pn.as_bytes(), fmt.as_bytes()]) { continue; }
+                        let rr = rnd(pn);
+                        let e = commit(&x, &rr, g, h, n).value;
+                        let forged = mccore::guard_val(|| adaptive::forge::<CS::HashAlg>(&x, &rr, &e, g, h, n, &a, &b, fmt == "H(omega)")); env.ctx.step();
+                        match forged { O::Ok(Some(p)) => { expect_bool(env, &r.id, &format!("verify(proof of an adaptive cheating prover for x = {}, assuming the challenge is {})", pn, fmt), &verify(&p, g, h, n, &a, &b), false, true, "adaptive-prover-out-of-range", json!({"base": det0, "point": pn, "challenge_format_assumed": fmt})); env.ctx.class("adaptive-prover:proof-judged"); }
+                                       _ => env.ctx.class("adaptive-prover:no-proof") }
+                        env.ctx.trace();
+                    }
+                }
+            }
             Kind::SignFlip => {
                 let k = if env.thorough() { 64 } else { 32 };
                 let pool: Vec<Value> = (0..k).filter_map(|i| { let c = commit(&mid, &rnd(&format!("sf{}", i)), g, h, n); prove(&mid, &c, &a, &b).ok().map(|p| to_json(&p)) }).collect();
@@ -199,4 +230,99 @@ where CL03<CS>: Scheme<PubKey = CL03PublicKey, PrivKey = CL03SecretKey>, CS::Has
             }
         }
     });
+}
+
+
+/// Harness-side cheating prover (adapted from a demonstration written by a review sub-agent): everything is computed from the
+/// opening (x, r) of E with the library's own parameter choices; the only deviation is the ORDER inside the larger-interval
+/// proofs - first message first, decomposition after the challenge is known.
+mod adaptive {
+    use super::*;
+    use rug::integer::Order;
+    use rug::ops::Pow;
+    use zkryptium::utils::random::rand_int;
+    const T_: u32 = 128; const L_: u32 = 40; const S_: u32 = 40;
+    fn two(k: u32) -> Integer { Integer::from(1) << k }
+    fn com(g: &Integer, x: &Integer, h: &Integer, r: &Integer, n: &Integer) -> Integer { let v = (modpow(g, x, n) * modpow(h, r, n)) % n; if v < 0 { v + n } else { v } }
+    fn sym(bound: &Integer) -> Integer { rand_int(-bound.clone() + Integer::from(1), bound.clone() - Integer::from(1)) }
+    fn hash<H: sha2::Digest>(s: String) -> Integer { Integer::from_digits(H::digest(s).as_slice(), Order::MsfBe) }
+
+    /// (C, D_1, D_2, y) with x_side = y^2 + x_2. `plain`: the challenge is H(omega); otherwise it also covers E_x_2 (= E_x / commit(y^2))
+    /// and a statement string, which the attacker can only chase by iterating (bounded).
+    #[allow(clippy::too_many_arguments)]
+    fn cheat_li<H: sha2::Digest>(xs: &Integer, r1: &Integer, r2: &Integer, e_side: &Integer, ctx: &str, g: &Integer, h: &Integer, n: &Integer, b_rest: &Integer, big_t: u32, plain: bool) -> Option<(Integer, Integer, Integer, Integer)> {
+        let top = two(T_ + L_) * b_rest - Integer::from(1);
+        let w = two(T_) * (xs.clone().abs() + b_rest + two(big_t));
+        for _ in 0..24 {
+            let nu = sym(&(two(big_t + T_ + L_ + S_) * n));
+            let omega = com(g, &w, h, &nu, n);
+            let mut y = Integer::from(0);
+            for _round in 0..(if plain { 1 } else { 6 }) {
+                let e2 = { let e1 = com(g, &y.clone().pow(2), h, r1, n); (e_side.clone() * e1.invert(n).ok()?) % n };
+                let big_c = if plain { hash::<H>(omega.to_string()) } else { hash::<H>(omega.to_string() + &e2.to_string() + ctx) };
+                let c = Integer::from(&big_c % two(T_));
+                if c == 0 { break; }
+                let hi = Integer::from(&w / &c) + xs - b_rest;
+                if hi < 0 { break; }
+                let y2 = hi.sqrt();
+                let x2 = xs.clone() - y2.clone().pow(2);
+                let d1 = w.clone() + (&c * &x2).complete();
+                if y2 == y || plain { if (&c * b_rest).complete() <= d1 && d1 <= top { return Some((big_c, d1, nu + &c * r2, y2)); } if plain { break; } }
+                y = y2;
+            }
+        }
+        None
+    }
+    #[allow(clippy::too_many_arguments)]
+    fn square<H: sha2::Digest>(y: &Integer, r1: &Integer, e: &Integer, ctx: &str, g: &Integer, h: &Integer, n: &Integer, bsq: &Integer, s2: u32, plain: bool) -> Value {
+        let r2 = sym(&(two(S_) * n));
+        let f = com(g, y, h, &r2, n);
+        let r3 = r1.clone() - (&r2 * y).complete();
+        let omega = rand_int(Integer::from(1), two(L_ + T_) * bsq - Integer::from(1));
+        let mu1 = rand_int(Integer::from(1), two(L_ + T_ + 40) * n - Integer::from(1));
+        let mu2 = rand_int(Integer::from(1), two(L_ + T_ + s2) * n - Integer::from(1));
+        let (w1, w2) = (com(g, &omega, h, &mu1, n), com(&f, &omega, h, &mu2, n));
+        let mut st = w1.to_string() + &w2.to_string() + &f.to_string() + &e.to_string();
+        if !plain { st += ctx; }
+        let ch = hash::<H>(st) % two(T_);
+        let (d, d1, d2) = (omega + &ch * y, mu1 + &ch * &r2, mu2 + &ch * &r3);
+        json!({"E": int_leaf(e), "F": int_leaf(&f), "proof_ss": {"challenge": int_leaf(&ch), "d": int_leaf(&d), "d_1": int_leaf(&d1), "d_2": int_leaf(&d2)}})
+    }
+    #[allow(clippy::too_many_arguments)]
+    pub fn forge<H: sha2::Digest>(x: &Integer, r: &Integer, e: &Integer, g: &Integer, h: &Integer, n: &Integer, a: &Integer, b: &Integer, plain: bool) -> Option<RP> {
+        let big_t = 2 * (T_ + L_ + 1) + (b - a).complete().significant_bits();
+        let (aa, bb) = (two(big_t) * a, two(big_t) * b);
+        let root = (&bb - &aa).complete().sqrt();
+        let b_rest = root.clone() * 2 + Integer::from(2);
+        let bsq = root + Integer::from(1);
+        let s2 = 552u32.max(S_ + big_t + 1);
+        let (xp, rp) = (two(big_t) * x, two(big_t) * r);
+        let e_prime = modpow(e, &two(big_t), n);
+        let ctx = super::statement_string(g, h, n, a, b, e);
+        let (xa, xb) = ((&xp - &aa).complete(), (&bb - &xp).complete());
+        let ra1 = sym(&(two(S_ + big_t) * n)); let ra2 = (&rp - &ra1).complete();
+        let rb1 = sym(&(two(S_ + big_t) * n)); let rb2 = -rp.clone() - &rb1;
+        let e_a = (e_prime.clone() * modpow(g, &aa, n).invert(n).ok()?) % n;
+        let e_b = (modpow(g, &bb, n) * e_prime.clone().invert(n).ok()?) % n;
+        let (ca, da1, da2, ya) = cheat_li::<H>(&xa, &ra1, &ra2, &e_a, &ctx, g, h, n, &b_rest, big_t, plain)?;
+        let (cb, db1, db2, yb) = cheat_li::<H>(&xb, &rb1, &rb2, &e_b, &ctx, g, h, n, &b_rest, big_t, plain)?;
+        let ea1 = com(g, &ya.clone().pow(2), h, &ra1, n); let ea2 = com(g, &(xa.clone() - ya.clone().pow(2)), h, &ra2, n);
+        let eb1 = com(g, &yb.clone().pow(2), h, &rb1, n); let eb2 = com(g, &(xb.clone() - yb.clone().pow(2)), h, &rb2, n);
+        let j = json!({
+            "proof_of_tolerance": {
+                "E_a_1": int_leaf(&ea1), "E_a_2": int_leaf(&ea2), "E_b_1": int_leaf(&eb1), "E_b_2": int_leaf(&eb2),
+                "proof_of_square_a": square::<H>(&ya, &ra1, &ea1, &ctx, g, h, n, &bsq, s2, plain),
+                "proof_of_square_b": square::<H>(&yb, &rb1, &eb1, &ctx, g, h, n, &bsq, s2, plain),
+                "proof_large_i_a": {"C": int_leaf(&ca), "D_1": int_leaf(&da1), "D_2": int_leaf(&da2)},
+                "proof_large_i_b": {"C": int_leaf(&cb), "D_1": int_leaf(&db1), "D_2": int_leaf(&db2)},
+            },
+            "E_prime": int_leaf(&e_prime), "E": int_leaf(e),
+        });
+        from_json::<RP>(&j)
+    }
+}
+
+/// The statement string a repaired library puts into every Fiat-Shamir hash of the range proof (bases, modulus, bounds, commitment).
+pub fn statement_string(g: &Integer, h: &Integer, n: &Integer, a: &Integer, b: &Integer, e: &Integer) -> String {
+    g.to_string() + &h.to_string() + &n.to_string() + &a.to_string() + &b.to_string() + &e.to_string()
 }
